@@ -11,6 +11,11 @@ Oracle (the statement, nothing more):
   * independently, a value that ends in LF, contains an empty line (LF LF) or has a line after an LF that starts
     with a non-whitespace character must be rejected.
 "Line" is the reader's notion (boundaries LF, CR, CRLF).  Over-rejection is not a violation.
+
+Second family, "structured continuation lines": values whose continuation lines are, behind their indentation, lines that
+mean something to the reader in column 0 (PGP armor headers, an armor header field, a field line, a comment, '.', dashes):
+one such line, all ordered pairs of them, the complete armor sequence; same positions, keys and oracle, re-read from
+str, StringIO, bytes and a list of lines.
 """
 import io
 import itertools
@@ -25,10 +30,14 @@ RULE = ("Engine B walk of the value trie per (position, key) configuration: a st
         "(followed, when accepted, by dump and four re-reads).  evaluations = oracle clauses evaluated "
         "(unchanged-on-reject, must-reject, one per re-read).  A case is non-trivial when the value is accepted and "
         "contains a line break (LF or CR).  Outcome classes = rejected:<validator message> | accepted:<number of "
-        "reader lines>:<blank continuation?>:<value read back identical / normalised>.")
+        "reader lines>:<blank continuation?>:<value read back identical / normalised>.  Structured continuation lines: "
+        "one state / transition / trace per (configuration, value) with value = first line + 1..3 indented lines taken "
+        "from a list of lines that are meaningful to the reader at column 0; dump and eight re-reads (2 settings x str, "
+        "StringIO, bytes, list of lines); all of them non-trivial when accepted.")
 BUDGET = {"quick": 240, "thorough": 3000}
 
 POSITIONS = ("only", "first", "middle", "last")
+ALL_SOURCES = ("str", "stringio", "bytes", "lines")
 NOWS = {"whitespace-separates-paragraphs": False}
 
 
@@ -49,7 +58,16 @@ def bounds(tier):
             "positions": {"only": "new field of an empty paragraph", "first": "overwrite K in [K, Y]",
                           "middle": "overwrite K in [X, K, Y]", "last": "overwrite K in [X, K]"},
             "keys": keys(0), "sources": ["str", "StringIO"],
-            "settings": ["whitespace-separates-paragraphs=False", "default (only without blank continuation line)"]}
+            "settings": ["whitespace-separates-paragraphs=False", "default (only without blank continuation line)"],
+            "structured_continuation_lines": {
+                "lines": STRUCT_LINES, "first_lines": STRUCT_FIRST, "indents": STRUCT_INDENTS, "trailing": STRUCT_TRAIL,
+                "values": "first + LF + indent + L + trailing for every L (%d); first + two such lines for all %d ordered "
+                          "pairs (L1, L2), same indent, no trailing (indent of two blanks: the 25 pairs of armor lines); first + the three armor lines SIGNED MESSAGE / SIGNATURE "
+                          "/ END SIGNATURE (+ 'Hash: SHA1' after the first); each L alone as the first line of the value and "
+                          "followed by ' y': %d values per configuration" % (
+                              len(STRUCT_LINES) * len(STRUCT_TRAIL), len(STRUCT_LINES) ** 2,
+                              sum(len(struct_values(g)) for g in range(len(struct_groups())))),
+                "sources": ["str", "StringIO", "bytes", "list of lines with newlines"]}}
 
 
 def assumptions():
@@ -57,7 +75,39 @@ def assumptions():
             "classes are explored", "over-rejection is not a violation",
             "must-reject clause: 'whitespace' at the start of a continuation line is what str.isspace says (CR counts), "
             "so a value such as 'a\\n\\rb' is not demanded to be rejected by that clause",
-            "the seed rotates the letter and the one-letter key; shapes are the same"]
+            "the seed rotates the letter and the one-letter key; shapes are the same",
+            "structured continuation lines use printable ASCII outside the 7 classes ('-', upper-case words, digits, '.'); "
+            "they are 'printable text' in the sense of the quantifier; trailing blank / tab after such a line is part of the "
+            "value; the continuation lines are never blank, so both parser settings apply"]
+
+
+# ------------------------------------------------------------------------------------------------ structured lines
+
+STRUCT_LINES = ["-----BEGIN PGP SIGNED MESSAGE-----", "-----BEGIN PGP SIGNATURE-----", "-----END PGP SIGNATURE-----",
+                "-----BEGIN PGP X-----", "-----END PGP X-----", "Hash: SHA1", "K: v", "K:", "#c", ".", "-", "--"]
+STRUCT_FIRST = ["x", ""]
+STRUCT_INDENTS = [" ", "\t", "  "]
+STRUCT_TRAIL = ["", " ", "\t"]
+
+
+def struct_groups():
+    return [(f, ind) for f in STRUCT_FIRST for ind in STRUCT_INDENTS]
+
+
+def struct_values(gi, seed=0):
+    """values of one (first line, indent) group, simplest first"""
+    f, ind = struct_groups()[gi]
+    if f:
+        f = core.rep(seed, ["x", "y", "w", "u"])
+    out = [f + "\n" + ind + L + t for L in STRUCT_LINES for t in STRUCT_TRAIL]
+    two = STRUCT_LINES if len(ind) == 1 else STRUCT_LINES[:5]      # the two-character indent: armor lines only
+    out += [f + "\n" + ind + L1 + "\n" + ind + L2 for L1 in two for L2 in two]
+    sm, sig, end = STRUCT_LINES[:3]
+    out += [f + "".join("\n" + ind + L for L in seq) for seq in ((sm, sig, end), (sm, "Hash: SHA1", sig, end), (sm, ".", "q", sig, end))]
+    if gi == 0:
+        # the line as the FIRST line of the value (column 0 of the value, behind 'Key: ' in the dump)
+        out += [L for L in STRUCT_LINES] + [L + "\n y" for L in STRUCT_LINES]
+    return out
 
 
 # ------------------------------------------------------------------------------------------------ one case
@@ -101,7 +151,7 @@ def _msg_class(e):
     return re.sub(r"[^a-z]+", "-", str(e).lower()).strip("-")[:40]
 
 
-def execute(position, key, v, part=None):
+def execute(position, key, v, part=None, sources=("str", "stringio")):
     """-> list of (sig, expected, observed)"""
     from debian.deb822 import Deb822
     bad = []
@@ -136,8 +186,9 @@ def execute(position, key, v, part=None):
     for setting, strict in (("ws-continues", NOWS), ("default", None)):
         if strict is None and blankcont:
             continue
-        for srcname in ("str", "stringio"):
-            src = text if srcname == "str" else io.StringIO(text)
+        for srcname in sources:
+            src = (text if srcname == "str" else io.StringIO(text) if srcname == "stringio" else
+                   text.encode("utf-8") if srcname == "bytes" else text.splitlines(True))
             ev += 1
             try:
                 ps = list(Deb822.iter_paragraphs(src, strict=dict(strict) if strict else None))
@@ -166,7 +217,7 @@ def execute(position, key, v, part=None):
         part.outcomes["accepted:lines=%d:blankcont=%s:readback=%s" % (len(rl), "y" if blankcont else "n", readback)] += 1
         if "\n" in v or "\r" in v:
             part.nontrivial += 1
-        part.extra["accepted"] += 1
+        part.extra["accepted" if len(sources) == 2 else "accepted (structured continuation lines)"] += 1
     return bad
 
 
@@ -180,11 +231,17 @@ def units(tier, seed):
             for pi in range(len(POSITIONS)):
                 for ki in range(2):
                     out.append((L, pre, pi, ki))
+    for gi in range(len(struct_groups())):
+        for pi in range(len(POSITIONS)):
+            for ki in range(2):
+                out.append(("S", gi, pi, ki))
     return out
 
 
 def unit_cost(u, tier):
     L, pre, pi, ki = u
+    if L == "S":
+        return 2400
     return 7 ** (L - len(pre))
 
 
@@ -193,6 +250,17 @@ def run_unit(u, tier, seed):
     L, pre, pi, ki = u
     al = alphabet(seed)
     position, key = POSITIONS[pi], keys(seed)[ki]
+    if L == "S":
+        part.max_depth = 6
+        for v in struct_values(pre, seed):
+            part.states += 1
+            part.transitions += 1
+            part.traces += 1
+            case = {"position": position, "key": key, "value": v, "sources": list(ALL_SOURCES)}
+            for sig, exp, obs in execute(position, key, v, part, ALL_SOURCES):
+                part.violation(sig, case, exp, obs, rank=len(v))
+        part.sample(case)
+        return part
     head = "".join(al[i] for i in pre)
     part.max_depth = L
     v = head
@@ -209,12 +277,12 @@ def run_unit(u, tier, seed):
 
 
 def replay(case):
-    return execute(case["position"], case["key"], case["value"])
+    return execute(case["position"], case["key"], case["value"], None, tuple(case.get("sources", ("str", "stringio"))))
 
 
 def repro_py(case):
     return ("import io\nfrom debian.deb822 import Deb822\n"
-            "position, key, v = %r, %r, %r\n"
+            "position, key, v, more = %r, %r, %r, %r\n"
             "p = Deb822()\n"
             "if position in ('middle', 'last'): p['X'] = '1'\n"
             "if position != 'only': p[key] = '0'\n"
@@ -225,9 +293,10 @@ def repro_py(case):
             "    assert all(not l or l[0].isspace() for l in v.split('\\n')[1:])\n"
             "    want = [list(p.keys())]\n"
             "    s = {'whitespace-separates-paragraphs': False}\n"
-            "    assert [list(q.keys()) for q in Deb822.iter_paragraphs(p.dump(), strict=s)] == want\n"
-            "    assert [list(q.keys()) for q in Deb822.iter_paragraphs(io.StringIO(p.dump()), strict=s)] == want\n"
-            "    if all(l.strip() for l in v.splitlines()[1:]):\n"
-            "        assert [list(q.keys()) for q in Deb822.iter_paragraphs(p.dump())] == want\n"
-            "        assert [list(q.keys()) for q in Deb822.iter_paragraphs(io.StringIO(p.dump()))] == want\n"
-            % (case["position"], case["key"], case["value"]))
+            "    t = p.dump()\n"
+            "    srcs = [lambda: t, lambda: io.StringIO(t)] + ([lambda: t.encode('utf-8'), lambda: t.splitlines(True)] if more else [])\n"
+            "    for mk in srcs:\n"
+            "        assert [list(q.keys()) for q in Deb822.iter_paragraphs(mk(), strict=s)] == want\n"
+            "        if all(l.strip() for l in v.splitlines()[1:]):\n"
+            "            assert [list(q.keys()) for q in Deb822.iter_paragraphs(mk())] == want\n"
+            % (case["position"], case["key"], case["value"], len(case.get("sources", ())) > 2))
